@@ -49,30 +49,55 @@ def _call_args(text, start):
 
 
 def _strip(a):
-    a = a.strip()
+    a = " ".join(a.split())
     while a.startswith("(") and a.endswith(")"):
         a = a[1:-1].strip()
     return a
 
 
+def _decomment(t):
+    """drop comments and join continuation lines: the reader must not depend on layout (a re-formatted tree reads the same)"""
+    t = re.sub(r"/\*.*?\*/", " ", t, flags=re.S)
+    t = re.sub(r"//[^\n]*", " ", t)
+    return t.replace("\\\n", " ")
+
+
+def _match(text, start, op, cl):
+    """text[start] == op; index of the matching closer"""
+    depth, i = 0, start
+    while i < len(text):
+        if text[i] == op:
+            depth += 1
+        elif text[i] == cl:
+            depth -= 1
+            if depth == 0:
+                return i
+        i += 1
+    raise ValueError("unbalanced %s%s in the spawn wrappers" % (op, cl))
+
+
 def parse(repo):
-    src = open(os.path.join(repo, "src", "qthread.c")).read()
-    hdr = open(os.path.join(repo, "include", "qthread", "qthread.h")).read()
+    src = _decomment(open(os.path.join(repo, "src", "qthread.c")).read())
+    hdr = _decomment(open(os.path.join(repo, "include", "qthread", "qthread.h")).read())
     rows = {}
-    for m in re.finditer(r"^int API_FUNC (qthread_fork\w*)\s*\(([^)]*)\)\s*\{", src, re.M | re.S):
-        name, params = m.group(1), m.group(2)
-        # function body up to the next line that is just "}" or "} /*...*/" at column 0
-        end = re.compile(r"^\}", re.M).search(src, m.end())
-        body = src[m.end():end.start()]
+    for m in re.finditer(r"\bint\s+API_FUNC\s+(qthread_fork\w*)\s*\(", src):
+        name = m.group(1)
+        pe = _match(src, m.end() - 1, "(", ")")
+        params = src[m.end():pe]
+        rest = src[pe + 1:].lstrip()
+        if not rest.startswith("{"):
+            continue                                     # a declaration, not the definition
+        bs = src.index("{", pe)
+        body = src[bs + 1:_match(src, bs, "{", "}")]
         calls = [c.start() for c in re.finditer(r"\bqthread_spawn\s*\(", body)]
         if len(calls) != 1:
             raise ValueError("%s: expected exactly one qthread_spawn call, found %d" % (name, len(calls)))
         args = _call_args(body, body.index("(", calls[0]))
         pnames = [re.split(r"[\s\*]+", p.strip())[-1] for p in params.split(",")]
         rows[name] = (args, pnames, "src/qthread.c")
-    for m in re.finditer(r"^#define (qthread_fork\w*)\(([^)]*)\)\s*\\\n\s*qthread_spawn\s*\(", hdr, re.M):
+    for m in re.finditer(r"^[ \t]*#[ \t]*define[ \t]+(qthread_fork\w*)\(([^)]*)\)\s*qthread_spawn\s*\(", hdr, re.M):
         name = m.group(1)
-        args = _call_args(hdr, hdr.index("(", m.end() - 1))
+        args = _call_args(hdr, m.end() - 1)
         rows[name] = (args, [p.strip() for p in m.group(2).split(",")], "include/qthread/qthread.h")
     table = []
     for vid, name in enumerate(VARIANTS):
@@ -94,7 +119,7 @@ def flag_bits(repo):
     """QTHREAD_UNSTEALABLE etc. from include/qt_qthread_struct.h (bit numbers)"""
     txt = open(os.path.join(repo, "include", "qt_qthread_struct.h")).read()
     out = {}
-    for m in re.finditer(r"^#define (QTHREAD_[A-Z_0-9]+)\s+\(1 << (\d+)\)", txt, re.M):
+    for m in re.finditer(r"^[ \t]*#[ \t]*define[ \t]+(QTHREAD_[A-Z_0-9]+)\s+\(\s*1\s*<<\s*(\d+)\s*\)", txt, re.M):
         out[m.group(1)] = int(m.group(2))
     return out
 
